@@ -405,6 +405,15 @@ def check_exact_splitter(prog, report):
                              where, 'sub-intervals are non-empty',
                              construct='spacetime_integrated_kernel: '
                              'recursive call non-empty')
+            elif len(rects) > 1:
+                # a closed-form leaf inside a sum stands for a sub-rectangle;
+                # its placement is covered by the area rule below
+                pos = all(_lt(state, Lin(), x_) for x_ in sp_[:1])
+                report.check(pos, 'R-translate',
+                             'leaf in a sum `%s`' % ctext, where,
+                             'first length of a closed-form piece is '
+                             'positive', construct='spacetime_integrated_'
+                             'kernel: leaf in a sum')
             elif fn == 'spacetime_integrated_kernel_4':
                 h, k, l = sp_
                 ok = (_eq(state, h, XB - XA) and _eq(state, k, YA - XA)
